@@ -261,6 +261,7 @@ pub fn apply_child_op(s: &mut Sim, pid: i32, op: &mut ChildOp) -> (i64, i32) {
             s.k.exit_proc(pid, ExitCause::Code(101));
             (0, 0)
         }
+        ChildOp::Other { name } if name == "setgroups" => (0, 0),
         ChildOp::Other { .. } => (-1, libc::ENOSYS),
         ChildOp::Sleep { .. } => (0, 0),
     }
@@ -1560,6 +1561,28 @@ macro_rules! id_setter {
 
 id_setter!(setuid, libc::uid_t, Setuid, Setuid);
 id_setter!(setgid, libc::gid_t, Setgid, Setgid);
+
+/// Supplementary groups are not modelled (no property speaks of them); the call must not reach
+/// the real kernel from the forked worker, and it is recorded like any other step of the child.
+#[no_mangle]
+pub unsafe extern "C" fn setgroups(n: size_t, list: *const libc::gid_t) -> c_int {
+    match ctx() {
+        Ctx::Real => real!(setgroups: fn(size_t, *const libc::gid_t) -> c_int)(n, list),
+        Ctx::Child => {
+            let _g = Guard::new();
+            child_call(ChildOp::Other { name: "setgroups".into() });
+            0
+        }
+        Ctx::Par(t) => {
+            let _g = Guard::new();
+            par_enter(t, Call::Setgid);
+            sim().k.std_touched.push("setgroups in the parent".to_string());
+            par_log(t, Call::Setgid, [n as i64, 0, 0], -1);
+            set_errno(libc::EPERM);
+            -1
+        }
+    }
+}
 
 #[no_mangle]
 pub unsafe extern "C" fn setpgid(pid: pid_t, pgid: pid_t) -> c_int {
